@@ -488,16 +488,18 @@ Fixpoint dup_n (n : fnode) : res (list issue) :=
   end.
 Definition check_duplicates (f : list fnode) : res (list issue) := dup_n (sorted_n (FGroup f)).
 
+(* body of the loop of GroupValidator.validate_duration_tags for one Duration/Delay group *)
+Definition duration_group (g : list fnode) : list issue :=
+  let tl := map sbase_of (filter tf_top_level (all_tags g)) in
+  if existsb (fun s => str_mem s temporal_keys) tl then []
+  else if negb (Nat.eqb (length tl) (length (tags_of g))) then
+    flat_map (fun t => if str_mem (sbase_of t) tl then [] else [iss K_DURATION_HAS_OTHER_TAGS]) (tags_of g)
+  else if negb (Nat.eqb (length (groups_of g)) 1) then [iss K_DURATION_WRONG_NUMBER_GROUPS]
+  else [].
+
 (* GroupValidator.validate_duration_tags *)
 Definition validate_duration_tags (f : list fnode) : list issue :=
-  flat_map (fun x : tagfacts * nat * list fnode =>
-    let g := snd x in
-    let tl := map sbase_of (filter tf_top_level (all_tags g)) in
-    if existsb (fun s => str_mem s temporal_keys) tl then []
-    else if negb (Nat.eqb (length tl) (length (tags_of g))) then
-      flat_map (fun t => if str_mem (sbase_of t) tl then [] else [iss K_DURATION_HAS_OTHER_TAGS]) (tags_of g)
-    else if negb (Nat.eqb (length (groups_of g)) 1) then [iss K_DURATION_WRONG_NUMBER_GROUPS]
-    else []) (find_top_level duration_keys f).
+  flat_map (fun x : tagfacts * nat * list fnode => duration_group (snd x)) (find_top_level duration_keys f).
 
 (* DefValidator._handle_onset_or_offset *)
 Definition handle_onset_or_offset (dt : tagfacts) : list issue :=
@@ -507,27 +509,36 @@ Definition handle_onset_or_offset (dt : tagfacts) : list issue :=
     then [iss K_ONSET_PLACEHOLDER_WRONG]
   else [].
 
+(* children of the temporal group other than the Def tag / Def-expand group (child index di), the
+   Onset/Offset/Inset tag (child index oi) and Delay tags *)
+Definition onset_children (g : list fnode) (di oi : nat) : list fnode :=
+  filter (fun c => match c with
+                   | FTag t => negb (str_eqb (sbase_of t) c_DELAY_KEY)
+                   | FGroup _ => true
+                   end)
+         (map snd (filter (fun p : nat * fnode => negb (Nat.eqb (fst p) di) && negb (Nat.eqb (fst p) oi))
+                          (combine (seq 0 (length g)) g))).
+(* max_children *)
+Definition onset_max (onset : tagfacts) : nat := if str_eqb (sbase_of onset) c_OFFSET_KEY then 0 else 1.
+
+(* body of the loop of DefValidator.validate_onset_offset for one temporal group *)
+Definition onset_group (onset : tagfacts) (oi : nat) (g : list fnode) : list issue :=
+  match def_tags_from 0 g with
+  | [] => [iss K_ONSET_NO_DEF_TAG_FOUND]
+  | _ :: _ :: _ => [iss K_ONSET_TOO_MANY_DEFS]
+  | [(dt, di)] =>
+      let children := onset_children g di oi in
+      if Nat.ltb (onset_max onset) (length children) then [iss K_ONSET_WRONG_NUMBER_GROUPS]
+      else (match children with
+            | FTag _ :: _ => [iss K_ONSET_TAG_OUTSIDE_OF_GROUP]
+            | _ => []
+            end) ++ handle_onset_or_offset dt
+  end.
+
 (* DefValidator.validate_onset_offset *)
 Definition validate_onset_offset (f : list fnode) : list issue :=
-  flat_map (fun x : tagfacts * nat * list fnode =>
-    let '(onset, oi, g) := x in
-    match def_tags_from 0 g with
-    | [] => [iss K_ONSET_NO_DEF_TAG_FOUND]
-    | _ :: _ :: _ => [iss K_ONSET_TOO_MANY_DEFS]
-    | [(dt, di)] =>
-        let others := filter (fun p : nat * fnode => negb (Nat.eqb (fst p) di) && negb (Nat.eqb (fst p) oi))
-                             (combine (seq 0 (length g)) g) in
-        let children := filter (fun c => match c with
-                                         | FTag t => negb (str_eqb (sbase_of t) c_DELAY_KEY)
-                                         | FGroup _ => true
-                                         end) (map snd others) in
-        let maxc := if str_eqb (sbase_of onset) c_OFFSET_KEY then 0 else 1 in
-        if Nat.ltb maxc (length children) then [iss K_ONSET_WRONG_NUMBER_GROUPS]
-        else (match children with
-              | FTag _ :: _ => [iss K_ONSET_TAG_OUTSIDE_OF_GROUP]
-              | _ => []
-              end) ++ handle_onset_or_offset dt
-    end) (find_top_level temporal_keys f).
+  flat_map (fun x : tagfacts * nat * list fnode => let '(onset, oi, g) := x in onset_group onset oi g)
+           (find_top_level temporal_keys f).
 
 (* GroupValidator.run_all_tags_validators + run_tag_level_validators + validate_onset_offset *)
 Definition full_checks (cfg : config) (f : list fnode) : res (list issue) :=
